@@ -381,10 +381,49 @@ def run_streams_inner(case):
   return R(None, True, (fam, which, ck))
 
 
+# ------------------------------------------------------------ calling routes
+from ..routes import routes_agree
+
+
+def filt_canon(f):
+  secs = list(f) if isinstance(f, (list, tuple)) or type(f).__name__ in ("CascadeFilter", "ParallelFilter") else [f]
+  return [sorted((tag, k, repr(v[0])) for (tag, k), v in coef_table(s, 1).items()) for s in secs]
+
+
+def route_table():
+  from audiolazy import comb, gammatone, erb
+  T = OrderedDict()
+  c = lambda v: (lambda: v)
+  for sd, sdn in ((lowpass, "lowpass"), (highpass, "highpass")):
+    for name in names_of(sd):
+      T["%s.%s" % (sdn, name)] = (sd[name], [("cutoff", c(0.7))], filt_canon)
+  for name in names_of(resonator):
+    T["resonator." + name] = (resonator[name], [("freq", c(0.9)), ("bandwidth", c(0.2))], filt_canon)
+  T["comb.fb"] = (comb.fb, [("delay", c(3)), ("alpha", c(0.5))], filt_canon)
+  T["comb.ff"] = (comb.ff, [("delay", c(3)), ("alpha", c(0.5))], filt_canon)
+  T["comb.tau"] = (comb.tau, [("delay", c(3)), ("tau", c(7.0))], filt_canon)
+  T["gammatone.sampled"] = (gammatone.sampled, [("freq", c(0.9)), ("bandwidth", c(0.2)), ("phase", c(0.4)), ("eta", c(3))], filt_canon)
+  T["gammatone.slaney"] = (gammatone.slaney, [("freq", c(0.9)), ("bandwidth", c(0.2))], filt_canon)
+  T["gammatone.klapuri"] = (gammatone.klapuri, [("freq", c(0.9)), ("bandwidth", c(0.2))], filt_canon)
+  return T
+
+
+def gen_routes(run):
+  for name in route_table():
+    yield (name,)
+
+
+def run_routes(case):
+  f, spec, canon = route_table()[case[0]]
+  return routes_agree(case[0], f, spec, canon)
+
+
 KINDS = OrderedDict([
   ("lowpass-highpass", Kind(gen_lphp, run_lphp, chunk=1, timeout=120, rule="strategy/alias x slice of 64 cut-offs of the grid")),
   ("resonator", Kind(gen_resonator, run_resonator, chunk=1, timeout=120, rule="strategy/alias x bandwidth; frequency grid inside the case")),
   ("comb", Kind(gen_comb, run_comb, chunk=10, rule="strategy/alias x delay x alpha/tau; exact impulse-train response")),
   ("gammatone", Kind(gen_gammatone, run_gammatone, chunk=1, timeout=120, rule="strategy x bandwidth; frequency grid inside the case")),
   ("stream-params", Kind(gen_streams, run_streams, chunk=2, rule="stream-valued parameters vs constant designs, sample by sample")),
+  ("call-routes", Kind(gen_routes, run_routes, chunk=1,
+                       rule="each function with every documented parameter set: all positional / all keyword / every split must agree")),
 ])
